@@ -493,6 +493,24 @@ class NPShim:
         return np.argmax(a, *args, **k)
 
     def unique(self, a, *args, **k):
+        if has_sym(a) and not args and k == {'axis': 0} and np.ndim(a) == 2:
+            # distinct rows, lexicographically sorted (equality / order by comparisons: forks)
+            import functools
+            rows = [list(r) for r in np.asarray(a, dtype=object)]
+            out = []
+            for r in rows:
+                if not any(all(bool(x == y) for x, y in zip(r, q)) for q in out):
+                    out.append(r)
+
+            def cmp(p_, q_):
+                for x, y in zip(p_, q_):
+                    if x < y:
+                        return -1
+                    if x > y:
+                        return 1
+                return 0
+            out.sort(key=functools.cmp_to_key(cmp))
+            return objarr(out) if out else np.empty((0, np.shape(a)[1]), dtype=object)
         if has_sym(a) and not args and not k:
             flat = list(np.asarray(a, dtype=object).flat)
             out = []
